@@ -16,7 +16,8 @@ LEVEL = ("absence properties over the call graph and per-function CFGs: (1) ever
          "applies to document-derived operands (table) sits in a try that catches what it can raise, code that runs inside "
          "pydantic validation raises only what pydantic wraps, untrusted Any values are not returned as containers unchecked; "
          "(3) every dynamic template dispatch is total; (4) every loop / recursive cycle matches a recognised ranking pattern; "
-         "(5) exit status and no-write-on-rejection on the CFGs of cli.handle_errors / generate / Project.build.")
+         "(5) exit status by abstract evaluation of cli.handle_errors under the combinations of diagnostics and fail_on_warning, "
+         "no-write-on-rejection on the CFGs of generate / Project.build.")
 
 # exceptions raised by the calls the repository makes on document-derived operands  (callee suffix -> exception names)
 MAY_RAISE = {
@@ -30,10 +31,13 @@ MAY_RAISE = {
     "load": ("YAMLError",),           # ruamel YAML(...).load
     "model_validate": ("ValidationError",),
     "index": ("ValueError",),
+    # JSON serialisers: the YAML loader produces values JSON cannot express (!!binary bytes, dates, a self-containing alias)
+    "model_dump_json": ("PydanticSerializationError",),
+    "json.dumps": ("TypeError", "ValueError"),
 }
 # how external exception classes relate to builtin ones (for handler matching)
 EXT_BASES = {
-    "ValidationError": "ValueError", "JSONDecodeError": "ValueError", "YAMLError": "Exception",
+    "ValidationError": "ValueError", "JSONDecodeError": "ValueError", "YAMLError": "Exception", "PydanticSerializationError": "ValueError",
     "CalledProcessError": "Exception", "HTTPError": "Exception", "NetworkError": "Exception", "Exit": "Exception",
     "BadParameter": "Exception",
 }
@@ -100,7 +104,9 @@ def run(rep: Report, ctx: Any) -> str:
                       "abstract methods overridden by every concrete class; anything else must be caught on every call path")
     rep.rule("R06.2", "calls of the may-raise table on document-derived operands are enclosed by a try catching what they raise; "
                       "code running inside pydantic validation raises only ValueError/AssertionError (no unguarded `in`/subscript on "
-                      "Any); values of untrusted Any sources are not returned as containers without an isinstance check")
+                      "Any); values of untrusted Any sources are not returned as containers without an isinstance check; a document "
+                      "value handed to a container operation (iteration, len, `in`, subscription) has no scalar type (bool / int / "
+                      "float) among its abstract types unless an isinstance test excludes it on every way there")
     rep.rule("R06.3", "every call through a dynamically imported property template is guarded by `{% if alias.macro %}` or every "
                       "template the alias can denote defines the macro")
     rep.rule("R06.4", "every while loop and every recursive cycle of the call graph has one of five ranking arguments, decided on the "
@@ -110,9 +116,15 @@ def run(rep: Report, ctx: Any) -> str:
                       "list is the re-queue list of one pass, repeated only if the pass's indicator is set, indicator and list "
                       "reset between passes, no iteration both re-queues and sets the indicator; (4) every repetition removes a "
                       "key just tested present from a map nothing adds to; (5) structural recursion - the non-descending call "
-                      "edges are acyclic")
-    rep.rule("R06.5", "handle_errors raises typer.Exit(1) iff an error-level diagnostic exists or fail_on_warning; a rejected "
-                      "document returns before any filesystem effect")
+                      "edges are acyclic; in iterative form a work queue that every round takes an element off and that receives, "
+                      "unless a bounded event of (1)/(4) was passed, only strict sub-objects of the element just taken off; every "
+                      "regular expression handed to `re`: each unbounded repetition divides a text in one way only (its body has a "
+                      "fixed length, or begins / ends with a delimiter that occurs nowhere else in it, or is a choice between "
+                      "alternatives with different first characters that each end in one way) - no exponential backtracking")
+    rep.rule("R06.5", "handle_errors ends with a non-zero exit status iff an error-level diagnostic exists or fail_on_warning, and "
+                      "without one when there are no diagnostics - decided by abstract evaluation of handle_errors and the functions "
+                      "it calls under each combination of (no diagnostics | some has level ERROR | none has) x fail_on_warning; a "
+                      "rejected document returns before any filesystem effect")
     rep.rule("R06.6", "diagnostics survive to the caller: a function that records error values on objects it keeps in a local table "
                       "returns that table itself, never a filtered or rebuilt copy (an object dropped from it takes its diagnostics along)")
     rep.assumptions += [
@@ -132,7 +144,7 @@ def run(rep: Report, ctx: Any) -> str:
                 r = ix.resolve(m, n.args[0].id)
                 if r and r[0] == "func" and r[1] not in validators:
                     validators.append(r[1])
-    rep.floor("pydantic_validation_callbacks", len(validators), 4)
+    rep.floor("pydantic_validation_callbacks", len(validators), 2)
     n_raise = 0
     for f in funcs:
         for n in ast.walk(f.node):
@@ -141,28 +153,29 @@ def run(rep: Report, ctx: Any) -> str:
             if _owner(ix, f, n) is not f:
                 continue
             n_raise += 1
-            exc = call_name(n.exc) if isinstance(n.exc, ast.Call) else (dotted(n.exc) or norm(n.exc))
-            ename = exc.rsplit(".", 1)[-1]
-            key = f"{short(f)}::raise {ename}"
-            if f.module.name == f"{PKG}.cli" and ename in ("Exit", "BadParameter"):
-                rep.ok("R06.1", key, "typer exit protocol", "cli.py")
-                continue
-            if f in validators:
-                rep.check(ename in PYDANTIC_WRAPS, "R06.1", key, f"{ename} raised inside pydantic validation is not wrapped into "
-                          "ValidationError and escapes model_validate", where(f, n), lhs=ename, rhs=PYDANTIC_WRAPS)
-                continue
-            if ename == "NotImplementedError" and "abstractmethod" in " ".join(f.decorators):
-                missing = [c.name for c in ix.subclasses(f.cls) if not any(f.name in k.methods for k in ix.mro(c) if k is not f.cls)] if f.cls else []
-                rep.check(not missing, "R06.1", key, f"abstract method not overridden by {missing}", where(f, n),
-                          lhs="abstract", rhs="overridden by every concrete class")
-                continue
-            if caught(ename, handlers_around(f.node, n)):
-                rep.ok("R06.1", key, ename, "caught locally")
-                continue
-            esc = _escapes_to_entry(ix, it, f, ename)
-            rep.check(esc is None, "R06.1", key, f"{ename} raised here is not caught on the call path {esc}", where(f, n),
-                      lhs=f"raise {ename}", rhs="caught before generate()/cli.generate return", path=esc)
-    rep.floor("explicit_raises", n_raise, 9)
+            # what is raised is decided by the class of the exception object, wherever that object is built: in the raise statement, in
+            # a local, or in a function of the repository that hands it back
+            for ename in _raised_names(ix, f, n.exc):
+                key = f"{short(f)}::raise {ename}"
+                if f.module.name == f"{PKG}.cli" and ename in ("Exit", "BadParameter"):
+                    rep.ok("R06.1", key, "typer exit protocol", "cli.py")
+                    continue
+                if f in validators:
+                    rep.check(ename in PYDANTIC_WRAPS, "R06.1", key, f"{ename} raised inside pydantic validation is not wrapped into "
+                              "ValidationError and escapes model_validate", where(f, n), lhs=ename, rhs=PYDANTIC_WRAPS)
+                    continue
+                if ename == "NotImplementedError" and "abstractmethod" in " ".join(f.decorators):
+                    missing = [c.name for c in ix.subclasses(f.cls) if not any(f.name in k.methods for k in ix.mro(c) if k is not f.cls)] if f.cls else []
+                    rep.check(not missing, "R06.1", key, f"abstract method not overridden by {missing}", where(f, n),
+                              lhs="abstract", rhs="overridden by every concrete class")
+                    continue
+                if caught(ename, handlers_around(f.node, n)):
+                    rep.ok("R06.1", key, ename, "caught locally")
+                    continue
+                esc = _escapes_to_entry(ix, it, f, ename)
+                rep.check(esc is None, "R06.1", key, f"{ename} raised here is not caught on the call path {esc}", where(f, n),
+                          lhs=f"raise {ename}", rhs="caught before generate()/cli.generate return", path=esc)
+    rep.floor("explicit_raises", n_raise, 5)
     # every model_validate call site catches ValidationError
     n_mv = 0
     for f in funcs:
@@ -219,7 +232,7 @@ def run(rep: Report, ctx: Any) -> str:
             key = f"{short(f)}::{suf}({norm(operand)[:40] if operand is not None else ''})"
             rep.check(not bad, "R06.2", key, f"`{norm(n)[:70]}` on a document-derived operand may raise {bad}, which no enclosing "
                       "try catches", where(f, n), lhs=f"{suf} raises {excs2}", rhs=f"handlers {hs}")
-    rep.floor("may_raise_calls_on_document_operands", n_tab, 8)
+    rep.floor("may_raise_calls_on_document_operands", n_tab, 5)
 
     # (ii) membership / subscript on Any inside pydantic validation callbacks (TypeError is not wrapped)
     for f in validators:
@@ -266,6 +279,9 @@ def run(rep: Report, ctx: Any) -> str:
             if guarded and n_src == 0:
                 rep.ok("R06.2", f"{short(f)}::container-check", "isinstance check", "present")
 
+    # (iv) container operations on document values that may be scalars
+    _container_operations(rep, ctx, [f for f in funcs if not f.module.name.startswith(f"{PKG}.schema") or f in validators], validators)
+
     # ------------------------------------------------------------------------------------------------- R06.3
     rep.floor("dispatch_sites", len(ji.dispatches), 40)
     for dk, d in sorted(ji.dispatches.items(), key=lambda kv: (kv[1].template, kv[1].macro, kv[1].expr)):
@@ -287,6 +303,62 @@ def run(rep: Report, ctx: Any) -> str:
     _exit_status(rep, ctx, cfgs)
     _diagnostics_returned(rep, ctx)
     return LEVEL
+
+
+def _callee(ix: Any, f: FuncInfo, c: ast.Call) -> FuncInfo | None:
+    """the function of the repository a call made in f goes to: a nested function of f, a method reached through self / cls, or
+    whatever the (dotted) name resolves to in f's module"""
+    cn = dotted(c.func)
+    if cn is None:
+        return None
+    head, _, last = cn.rpartition(".")
+    if not head:
+        g: FuncInfo | None = f
+        while g is not None:
+            for h in ix.all_functions:
+                if h.parent is g and h.name == last:
+                    return h
+            g = g.parent
+    if head in ("self", "cls") and f.cls is not None:
+        return ix.find_method(f.cls, last)
+    r = ix.resolve(f.module, cn)
+    return r[1] if r and r[0] == "func" else None
+
+
+def _raised_names(ix: Any, f: FuncInfo, e: ast.expr, depth: int = 0, seen: frozenset[str] = frozenset()) -> list[str]:
+    """class names of the exception objects `raise e` can raise in f.  `raise helper(...)` raises what the helper returns, `raise x`
+    what the local x was bound to (the caught exception for a handler variable); whatever is not followed keeps its own text and is
+    then treated like an unknown exception class."""
+    from ..astutil import Locals
+
+    def own(x: ast.expr) -> str:
+        txt = call_name(x) if isinstance(x, ast.Call) else (dotted(x) or norm(x))
+        return txt.rsplit(".", 1)[-1]
+
+    out: list[str] = []
+    if isinstance(e, ast.IfExp):
+        cands = _raised_names(ix, f, e.body, depth, seen) + _raised_names(ix, f, e.orelse, depth, seen)
+    elif isinstance(e, ast.Call) and depth < 3 and (h := _callee(ix, f, e)) is not None and h.qual not in seen:
+        rets = [r for r in _own_nodes(h.node) if isinstance(r, ast.Return)]
+        cands = [nm for r in rets for nm in (_raised_names(ix, h, r.value, depth + 1, seen | {h.qual}) if r.value is not None else [own(e)])]
+        cands = cands or [own(e)]
+    elif isinstance(e, ast.Name) and depth < 3 and e.id not in seen:
+        cands = []
+        defs = Locals(f.node).defs.get(e.id, [])
+        for kind, _, v in defs:
+            if kind == "assign" and v is not None:
+                cands += _raised_names(ix, f, v, depth + 1, seen | {e.id})  # type: ignore[arg-type]
+            elif kind == "except" and v is not None:
+                cands += [own(t) for t in (v.elts if isinstance(v, ast.Tuple) else [v])]  # type: ignore[attr-defined]
+            else:
+                cands.append(e.id)
+        cands = cands or [e.id]
+    else:
+        cands = [own(e)]
+    for c in cands:
+        if c not in out:
+            out.append(c)
+    return out
 
 
 def _owner(ix: Any, f: FuncInfo, node: ast.AST) -> FuncInfo:
@@ -387,7 +459,8 @@ def _termination(rep: Report, ctx: Any, cfgs: dict[str, CFG]) -> None:
       (1) fresh element of a finite universe / (4) removal before repeating  -> `_bounded_events`
       (2) growing bounded set with change test                               -> `_growing_set`
       (3) progress rounds over a shrinking work list                         -> `_progress_rounds`
-      (5) structural recursion on the finite document / property tree        -> `_structural`"""
+      (5) structural recursion on the finite document / property tree        -> `_structural` (call graph), `_queue_transfer` (the
+          same argument for a loop that keeps the pending sub-trees on an explicit stack / queue)"""
     ix = ctx.py
     it, _ = ctx.flow
     n_loops = 0
@@ -414,6 +487,8 @@ def _termination(rep: Report, ctx: Any, cfgs: dict[str, CFG]) -> None:
         rep.check(pat is not None, "R06.4", key, f"recursive cycle {names} matches no ranking argument ({why})", where="",
                   lhs=names[:6], rhs="structural | fresh element | removal before recursing | growing bounded set | progress rounds",
                   pattern=pat)
+    # the loops the source does not show: backtracking matches of regular expressions
+    _regex_termination(rep, ctx)
 
 
 def _while_pattern(f: FuncInfo, n: ast.While, ix: Any = None) -> tuple[str | None, str]:
@@ -1026,9 +1101,11 @@ class _Scope:
         return not (self.kinds(text) & {"grow", "rebind", "escape"})
 
 
-def _walk_paths(fl: _Flow, edges0: list, transfer: Any, targets: list[object], inside: set[int] | None) -> list[object]:
+def _walk_paths(fl: _Flow, edges0: list, transfer: Any, targets: list[object], inside: set[int] | None,
+                overflow: list[bool] | None = None) -> list[object]:
     """path-sensitive walk: the state is the set of facts (test outcomes, aliases) that hold; `transfer` returns the state after a
-    statement or None when the path is satisfied.  Returns the targets reached by an unsatisfied path."""
+    statement or None when the path is satisfied.  Returns the targets reached by an unsatisfied path (`overflow` is told when the
+    walk was given up)."""
     hits: list[object] = []
     work = [(b, _close(fl.facts(a, lab))) for a, lab, b in edges0]
     seen: set[tuple[int, frozenset]] = set()
@@ -1038,6 +1115,8 @@ def _walk_paths(fl: _Flow, edges0: list, transfer: Any, targets: list[object], i
         if k in seen:
             continue
         if len(seen) > 20000:
+            if overflow is not None:
+                overflow.append(True)
             return hits + targets[:1]  # too many path states to decide: not proven
         seen.add(k)
         if any(n is t for t in targets):
@@ -1126,15 +1205,165 @@ def _bounded_events(rnd: _Round, why: _Why) -> str | None:
             if _walk_paths(fl, rnd.entry, _event_transfer(fl, scope, q, found2), rnd.targets, rnd.inside):
                 why.add(2, f"a path repeats without taking an element off `{q}` and without a bounded event")
                 continue
-            pushes = [s for s in rnd.stmts if q in fl.effects(s).pushes]
+            growth = _queue_growth(fl, rnd, q)
             found3: list[str] = []
-            if pushes and _walk_paths(fl, rnd.entry, _event_transfer(fl, scope, None, found3), list(pushes), rnd.inside):
-                why.add(4, f"elements are put on the work queue `{q}` on a path that has not passed a visited test (insertion of an element "
-                           "tested to be new / deletion of a key tested to be present): the queue need not drain")
+            bad: list[str] = []
+            descents: list[str] = []
+            over: list[bool] = []
+            _walk_paths(fl, rnd.entry, _queue_transfer(fl, scope, q, growth, found3, bad, descents), rnd.targets, rnd.inside, over)
+            if over:
+                why.add(2, f"too many path states to decide what is put on the work queue `{q}`")
                 continue
-            return (f"work queue `{q}`: every round takes an element off it; elements are added only after "
-                    + ("; ".join(sorted(set(found3))) if found3 else "nothing (it only drains)"))
+            if bad:
+                for t in sorted(set(bad)):
+                    why.add(4, t)
+                continue
+            paid = sorted(set(found3)) if growth and found3 else []
+            if descents:
+                paid.append("as strict sub-objects of the element just taken off (" + ", ".join(f"`{d}`" for d in sorted(set(descents)))
+                            + "): structural descent on the finite document / property tree in iterative form")
+            return (f"work queue `{q}`: every round takes an element off it; elements are added only "
+                    + ("; ".join(paid) if paid else "nowhere (it only drains)"))
     return None
+
+
+def _queue_growth(fl: _Flow, rnd: _Round, q: str) -> dict[int, list[tuple[str, ast.expr | None]]]:
+    """statement id -> what the statement can put on the queue q: ('elem', e) the value of e, ('elems', e) the elements of e,
+    ('?', None) something that is not followed.  Every way of enlarging the list counts: the growing methods, `q += e`,
+    `q = q + e` / `q = [*q, e]`, a store into an item or slice of q, handing q to a function of the repository that adds to it."""
+    out: dict[int, list[tuple[str, ast.expr | None]]] = {}
+    is_q = lambda e: isinstance(e, ast.Name) and e.id == q  # noqa: E731
+    for s in rnd.stmts:
+        got: list[tuple[str, ast.expr | None]] = []
+        for n in walk_own(s):  # type: ignore[arg-type]
+            if not isinstance(n, ast.Call):
+                continue
+            if isinstance(n.func, ast.Attribute) and is_q(n.func.value):
+                a = n.func.attr
+                if a in ("append", "appendleft", "add") and len(n.args) == 1 and not n.keywords:
+                    got.append(("elem", n.args[0]))
+                elif a == "insert" and len(n.args) == 2 and not n.keywords:
+                    got.append(("elem", n.args[1]))
+                elif a in ("extend", "extendleft", "update") and len(n.args) == 1 and not n.keywords:
+                    got.append(("elems", n.args[0]))
+                elif a in _GROW:
+                    got.append(("?", None))
+            elif any(is_q(a) for a in [*n.args, *[k.value for k in n.keywords]]):
+                if "grow" in _mut_kinds(fl.ix, fl.f, [n], ast.Name(id=q, ctx=ast.Load())):
+                    got.append(("?", None))
+        if isinstance(s, ast.AugAssign) and is_q(s.target):
+            if isinstance(s.op, (ast.Add, ast.BitOr)):
+                got.append(("elems", s.value))
+            elif not isinstance(s.op, (ast.Sub, ast.BitAnd)):
+                got.append(("?", None))
+        elif isinstance(s, (ast.Assign, ast.AnnAssign)) and getattr(s, "value", None) is not None:
+            tgts = [x for t in (s.targets if isinstance(s, ast.Assign) else [s.target]) for x in _flat_targets(t)]
+            if any(isinstance(t, ast.Subscript) and is_q(t.value) for t in tgts):
+                got.append(("?", None))
+            if any(is_q(t) for t in tgts):
+                v = s.value
+                if isinstance(v, ast.BinOp) and isinstance(v.op, (ast.Add, ast.BitOr)) and (is_q(v.left) or is_q(v.right)) and len(tgts) == 1:
+                    got.append(("elems", v.right if is_q(v.left) else v.left))
+                elif isinstance(v, (ast.List, ast.Set, ast.Tuple)) and len(tgts) == 1 and any(isinstance(e, ast.Starred) and is_q(e.value) for e in v.elts):
+                    for e in v.elts:
+                        if not (isinstance(e, ast.Starred) and is_q(e.value)):
+                            got.append(("elems", e.value) if isinstance(e, ast.Starred) else ("elem", e))
+                else:
+                    got.append(("?", None))
+        elif _binds_name(s, q):
+            got.append(("?", None))
+        if got:
+            out[id(s)] = got
+    return out
+
+
+def _rank(e: ast.AST | None, st: frozenset, q: str) -> str | None:
+    """how the value of e relates to the element taken off the queue q in the current round: 'cur' - it is that element (or holds
+    it), 'sub' - everything it holds is reached from that element by at least one attribute access / subscription / iteration step
+    (a strict sub-object), None - not known.  Decided from the facts of the path ('cur' / 'sub' per local name), never from names."""
+    def worst(rs: list[str | None]) -> str | None:
+        return None if not all(rs) else "cur" if "cur" in rs else "sub"
+
+    if e is None:
+        return None
+    if isinstance(e, ast.Name):
+        return "cur" if ("cur", e.id) in st else "sub" if ("sub", e.id) in st else None
+    if isinstance(e, (ast.Attribute, ast.Subscript)):
+        return "sub" if _rank(e.value, st, q) else None
+    if isinstance(e, (ast.Starred, ast.NamedExpr, ast.Await)):
+        return _rank(e.value, st, q)
+    if isinstance(e, ast.Call):
+        if isinstance(e.func, ast.Attribute):
+            if norm(e.func.value) == q:
+                return "cur" if e.func.attr in ("pop", "popleft", "popitem") and len(e.args) <= 1 and not e.keywords else None
+            base = _rank(e.func.value, st, q)
+            if base and e.func.attr in ("items", "values", "keys") and not e.args:
+                return "sub"
+            if base and e.func.attr == "get" and len(e.args) == 1 and not e.keywords:
+                return "sub"
+            if base and e.func.attr == "copy" and not e.args:
+                return base
+            return None
+        last = call_name(e).rsplit(".", 1)[-1]
+        if last in _WRAPPERS and e.args and all(k.arg in ("key", "reverse") for k in e.keywords):
+            return worst([_rank(a, st, q) for a in (e.args[-1:] if last in ("cast", "filter") else e.args)])
+        return None
+    if isinstance(e, ast.IfExp):
+        return worst([_rank(e.body, st, q), _rank(e.orelse, st, q)])
+    if isinstance(e, ast.BoolOp):
+        return worst([_rank(v, st, q) for v in e.values])
+    if isinstance(e, ast.Constant) and e.value is None:
+        return "sub"  # nothing
+    if isinstance(e, (ast.Tuple, ast.List, ast.Set)):
+        return worst([_rank(v, st, q) for v in e.elts]) if e.elts else "sub"  # a new container of sub-objects / of nothing
+    if isinstance(e, (ast.ListComp, ast.SetComp, ast.GeneratorExp)):
+        st2 = st
+        for g in e.generators:
+            names = {x.id for x in ast.walk(g.target) if isinstance(x, ast.Name)}
+            below = _rank(g.iter, st2, q) is not None
+            st2 = frozenset(f for f in st2 if not (f[0] in ("cur", "sub") and f[1] in names)) | ({("sub", nm) for nm in names} if below else set())
+        return _rank(e.elt, st2, q)
+    return None
+
+
+def _queue_transfer(fl: _Flow, scope: _Scope, q: str, growth: dict[int, list[tuple[str, ast.expr | None]]], found: list[str],
+                    bad: list[str], descents: list[str]) -> Any:
+    """The work-queue form of structural recursion.  Along a path of one round the facts ('cur', x) / ('sub', x) say that the local x
+    holds the element taken off the queue in THIS round / only strict sub-objects of it (values left over from an earlier round carry
+    no fact: every round starts without any).  An element may be put on the queue after a bounded event (which pays for anything), or
+    when it is a strict sub-object of the element just taken off: the multiset of pending sub-trees then decreases with every round."""
+    events = _event_transfer(fl, scope, None, found)
+
+    def transfer(n: ast.AST, st: frozenset) -> frozenset | None:
+        for kind, e in growth.get(id(n), ()):
+            if kind == "?" or _rank(e, st, q) != "sub":
+                what = f"`{norm(e)}`" if e is not None else "something that is not followed"
+                bad.append(f"{what} is put on the work queue `{q}` on a path that has not passed a visited test (insertion of an element "
+                           "tested to be new / deletion of a key tested to be present), and it is not a strict sub-object of the element "
+                           "just taken off the queue: the queue need not drain")
+            else:
+                descents.append(norm(e))
+        st2 = events(n, st)
+        if st2 is None:
+            return None
+        new: set[tuple] = set()
+        if isinstance(n, (ast.Assign, ast.AnnAssign)) and n.value is not None:
+            r = _rank(n.value, st, q)
+            for t in (n.targets if isinstance(n, ast.Assign) else [n.target]):
+                if isinstance(t, ast.Name) and r:
+                    new.add((r, t.id))
+                elif isinstance(t, (ast.Tuple, ast.List)) and r:
+                    new |= {("sub", x.id) for x in _flat_targets(t) if isinstance(x, ast.Name)}
+        elif isinstance(n, (ast.For, ast.AsyncFor)) and _rank(n.iter, st, q):
+            new |= {("sub", x.id) for x in _flat_targets(n.target) if isinstance(x, ast.Name)}
+        for w in walk_own(n):  # type: ignore[arg-type]
+            if isinstance(w, ast.NamedExpr) and isinstance(w.target, ast.Name):
+                r = _rank(w.value, st, q)
+                if r:
+                    new.add((r, w.target.id))
+        return st2 | new
+
+    return transfer
 
 
 def _snapshot_of(v: ast.expr | None, a_text: str) -> bool:
@@ -1614,72 +1843,1374 @@ def _structural(ix: Any, fs: list[FuncInfo], edges: dict[str, set[str]]) -> tupl
     return f"structural (every cycle passes one of {n_desc} calls that descend into a sub-object of a parameter)", ""
 
 
+# ---------------------------------------------------------------------------------------------------------------------------------
+# R06.4, regular expressions.  A backtracking match is a loop the source does not show: when the iterations of an unbounded repetition
+# can divide the same text in more than one way, a text that fails to match further on makes the engine try every division (their
+# number grows exponentially with the length of the text).  The ranking argument for a repetition is that its iterations divide any
+# text in ONE way only; it is decided on the parsed pattern (the standard library's own parser, as in sa/charclass.py), with exact
+# sets of code points for the single-character items.
+
+_RE_FUNCS = {"compile", "match", "fullmatch", "search", "sub", "subn", "split", "findall", "finditer"}
+_MANY = 10  # a repetition allowed this many times or more counts as unbounded
+
+
+class _Rx:
+    def __init__(self, tables: Any, flags: int) -> None:
+        self.t = tables
+        self.fold = bool(flags & 2)  # IGNORECASE: the sets below would have to be closed under case folding -> every set is "anything"
+
+    # -- single-character items ------------------------------------------------------------------------------------------------
+    def charset(self, op: str, av: Any) -> int | None:
+        """the code points a single-character item matches (None: the item is not a single character)"""
+        if op not in ("LITERAL", "NOT_LITERAL", "ANY", "IN"):
+            return None
+        if self.fold:
+            return self.t.ALL
+        if op == "LITERAL":
+            return 1 << av
+        if op == "NOT_LITERAL":
+            return self.t.ALL & ~(1 << av)
+        if op == "ANY":
+            return self.t.ALL
+        out, neg = 0, False
+        for o, a in av:
+            o = str(o)
+            if o == "NEGATE":
+                neg = True
+            elif o == "LITERAL":
+                out |= 1 << a
+            elif o == "RANGE":
+                out |= ((1 << (a[1] + 1)) - 1) & ~((1 << a[0]) - 1)
+            elif o == "CATEGORY":
+                cat = str(a)
+                base = {"WORD": r"\w", "DIGIT": r"\d", "SPACE": r"\s"}.get(cat.replace("CATEGORY_", "").replace("NOT_", ""))
+                if base is None:
+                    return self.t.ALL
+                cls = self.t.regex_class(base)
+                out |= (self.t.ALL & ~cls) if "NOT_" in cat else cls
+            else:
+                return self.t.ALL
+        return (self.t.ALL & ~out) if neg else out
+
+    # -- facts about a sequence of items ---------------------------------------------------------------------------------------
+    def length(self, seq: Any) -> tuple[int, int | None]:
+        """(shortest, longest) text the sequence matches; longest None = unbounded / not known"""
+        lo, hi = 0, 0
+        for op, av in seq:
+            a, b = self.item_length(str(op), av)
+            lo += a
+            hi = None if hi is None or b is None else hi + b
+        return lo, hi
+
+    def item_length(self, op: str, av: Any) -> tuple[int, int | None]:
+        if self.charset(op, av) is not None:
+            return 1, 1
+        if op in ("AT", "ASSERT", "ASSERT_NOT", "FAILURE"):
+            return 0, 0
+        if op == "SUBPATTERN":
+            return self.length(av[3])
+        if op == "ATOMIC_GROUP":
+            return self.length(av)
+        if op == "BRANCH":
+            ls = [self.length(s) for s in av[1]]
+            return min(a for a, _ in ls), (None if any(b is None for _, b in ls) else max(b for _, b in ls))  # type: ignore[type-var]
+        if op in ("MAX_REPEAT", "MIN_REPEAT", "POSSESSIVE_REPEAT"):
+            lo, hi, body = av
+            a, b = self.length(body)
+            return lo * a, (None if b is None or hi >= _MANY and b > 0 else hi * b)
+        if op == "GROUPREF_EXISTS":
+            ls = [self.length(s) for s in (av[1], av[2] or [])]
+            return min(a for a, _ in ls), (None if any(b is None for _, b in ls) else max(b for _, b in ls))  # type: ignore[type-var]
+        return 0, None  # GROUPREF and anything else: not known
+
+    def chars(self, seq: Any) -> int:
+        """every code point a text matched by the sequence can contain"""
+        out = 0
+        for op, av in seq:
+            op = str(op)
+            cs = self.charset(op, av)
+            if cs is not None:
+                out |= cs
+            elif op == "SUBPATTERN":
+                out |= self.chars(av[3])
+            elif op == "ATOMIC_GROUP":
+                out |= self.chars(av)
+            elif op == "BRANCH":
+                for s in av[1]:
+                    out |= self.chars(s)
+            elif op in ("MAX_REPEAT", "MIN_REPEAT", "POSSESSIVE_REPEAT"):
+                out |= self.chars(av[2])
+            elif op == "GROUPREF_EXISTS":
+                out |= self.chars(av[1]) | self.chars(av[2] or [])
+            elif op not in ("AT", "ASSERT", "ASSERT_NOT", "FAILURE"):
+                return self.t.ALL
+        return out
+
+    def first(self, seq: Any) -> int:
+        """code points a non-empty text matched by the sequence can start with"""
+        out = 0
+        for op, av in seq:
+            op = str(op)
+            cs = self.charset(op, av)
+            if cs is not None:
+                return out | cs
+            if op == "SUBPATTERN":
+                out |= self.first(av[3])
+            elif op == "ATOMIC_GROUP":
+                out |= self.first(av)
+            elif op == "BRANCH":
+                for s in av[1]:
+                    out |= self.first(s)
+            elif op in ("MAX_REPEAT", "MIN_REPEAT", "POSSESSIVE_REPEAT"):
+                out |= self.first(av[2])
+            elif op == "GROUPREF_EXISTS":
+                out |= self.first(av[1]) | self.first(av[2] or [])
+            elif op not in ("AT", "ASSERT", "ASSERT_NOT", "FAILURE"):
+                return self.t.ALL
+            if self.item_length(op, av)[0] > 0:
+                return out
+        return out
+
+    @staticmethod
+    def flat(seq: Any) -> list[tuple[str, Any]]:
+        """the items of a sequence with plain groups opened (a group does not change what is matched)"""
+        out: list[tuple[str, Any]] = []
+        for op, av in seq:
+            if str(op) == "SUBPATTERN" and not av[1] and not av[2]:
+                out += _Rx.flat(av[3])
+            else:
+                out.append((str(op), av))
+        return out
+
+    def one_division(self, body: Any) -> bool:
+        """every text has at most one division into consecutive matches of `body`:
+        - all matches have the same (non-zero) length, or
+        - the body begins or ends with a mandatory item of fixed length whose code points occur nowhere else in it (a delimiter:
+          the iterations begin / end exactly where it occurs), or
+        - it is a choice between alternatives that begin with different code points and each of which ends in one way only"""
+        items = [it for it in self.flat(body) if self.item_length(*it) != (0, 0)]
+        lo, hi = self.length(items)
+        if hi is not None and lo == hi:
+            return True  # (zero length: nothing is consumed, the engine stops repeating)
+        if lo == 0:
+            return False
+        if self.end_determined(items):
+            return True
+        if len(items) > 1:
+            d, rest = items[0], items[1:]
+            a, b = self.item_length(*d)
+            if a == b and a > 0 and not (self.chars([d]) & self.chars(rest)):
+                return True
+        return False
+
+    def end_determined(self, items: list[tuple[str, Any]]) -> bool:
+        """reading from a given start, a match of the sequence can end in one place only"""
+        lo, hi = self.length(items)
+        if hi is not None and lo == hi:
+            return True
+        if all(it[0] in ("ATOMIC_GROUP", "POSSESSIVE_REPEAT") or (lambda ab: ab[0] == ab[1])(self.item_length(*it)) for it in items):
+            return True  # nothing in it is ever given back
+        if len(items) > 1:
+            d, rest = items[-1], items[:-1]
+            a, b = self.item_length(*d)
+            if a == b and a > 0 and not (self.chars([d]) & self.chars(rest)):
+                return True
+        if len(items) == 1 and items[0][0] == "BRANCH":
+            alts = [[it for it in self.flat(s) if self.item_length(*it) != (0, 0)] for s in items[0][1][1]]
+            firsts = [self.first(s) for s in alts]
+            if all(self.length(s)[0] > 0 for s in alts) and all(not (firsts[i] & firsts[j]) for i in range(len(alts)) for j in range(i)) \
+                    and all(self.end_determined(s) for s in alts):
+                return True
+        return False
+
+    # -- the check -------------------------------------------------------------------------------------------------------------
+    def ambiguous_repeats(self, seq: Any, out: list[str] | None = None) -> list[str]:
+        """the unbounded repetitions (as text of their parsed form) whose iterations can divide a text in more than one way"""
+        out = [] if out is None else out
+        for op, av in seq:
+            op = str(op)
+            if op in ("MAX_REPEAT", "MIN_REPEAT"):
+                lo, hi, body = av
+                if hi >= _MANY and not self.one_division(body):
+                    txt = _rx_text(body)
+                    out.append((txt if len(list(body)) == 1 and str(list(body)[0][0]) != "BRANCH" else f"(?:{txt})") + ("*" if lo == 0 else "+" if lo == 1 else f"{{{lo},}}"))
+                self.ambiguous_repeats(body, out)
+            elif op == "POSSESSIVE_REPEAT":
+                self.ambiguous_repeats(av[2], out)  # never re-divided itself; what it contains still is, within one iteration
+            elif op == "SUBPATTERN":
+                self.ambiguous_repeats(av[3], out)
+            elif op in ("ASSERT", "ASSERT_NOT"):
+                self.ambiguous_repeats(av[1], out)
+            elif op == "ATOMIC_GROUP":
+                self.ambiguous_repeats(av, out)
+            elif op == "BRANCH":
+                for s in av[1]:
+                    self.ambiguous_repeats(s, out)
+            elif op == "GROUPREF_EXISTS":
+                self.ambiguous_repeats(av[1], out)
+                self.ambiguous_repeats(av[2] or [], out)
+        return out
+
+
+def _rx_text(seq: Any) -> str:
+    """a readable rendering of parsed items"""
+    def cs(av: Any) -> str:
+        out = ""
+        for o, a in av:
+            o = str(o)
+            out += "^" if o == "NEGATE" else re_escape(chr(a)) if o == "LITERAL" else f"{chr(a[0])}-{chr(a[1])}" if o == "RANGE" \
+                else {"CATEGORY_WORD": "\\w", "CATEGORY_DIGIT": "\\d", "CATEGORY_SPACE": "\\s", "CATEGORY_NOT_WORD": "\\W",
+                      "CATEGORY_NOT_DIGIT": "\\D", "CATEGORY_NOT_SPACE": "\\S"}.get(str(a), "?")
+        return out
+
+    def re_escape(c: str) -> str:
+        return "\\" + c if c in ".^$*+?{}[]\\|()" else c
+
+    out = ""
+    for op, av in seq:
+        op = str(op)
+        if op == "LITERAL":
+            out += re_escape(chr(av))
+        elif op == "NOT_LITERAL":
+            out += f"[^{re_escape(chr(av))}]"
+        elif op == "ANY":
+            out += "."
+        elif op == "IN":
+            out += f"[{cs(av)}]"
+        elif op == "SUBPATTERN":
+            out += f"({_rx_text(av[3])})"
+        elif op == "BRANCH":
+            out += "(?:" + "|".join(_rx_text(s) for s in av[1]) + ")"
+        elif op in ("MAX_REPEAT", "MIN_REPEAT", "POSSESSIVE_REPEAT"):
+            lo, hi, body = av
+            inner = _rx_text(body)
+            inner = inner if len(list(body)) == 1 and str(list(body)[0][0]) in ("LITERAL", "IN", "ANY", "NOT_LITERAL", "SUBPATTERN") else f"(?:{inner})"
+            out += inner + ("?" if (lo, hi) == (0, 1) else "*" if lo == 0 and hi >= 1 << 16 else "+" if lo == 1 and hi >= 1 << 16 else f"{{{lo},{hi if hi < 1 << 16 else ''}}}")
+        else:
+            out += f"<{op.lower()}>"
+    return out
+
+
+def _const_text(ix: Any, mod: Any, e: ast.AST | None, local: Any = None, depth: int = 0) -> str | None:
+    """the string an expression always evaluates to: literals, f-strings and concatenations of them, module-level constants and locals
+    bound once to such a string (None: not known)"""
+    if e is None or depth > 4:
+        return None
+    if isinstance(e, ast.Constant):
+        return e.value if isinstance(e.value, str) else None
+    if isinstance(e, ast.JoinedStr):
+        parts = []
+        for v in e.values:
+            if isinstance(v, ast.FormattedValue):
+                if v.conversion != -1 or v.format_spec is not None:
+                    return None
+                parts.append(_const_text(ix, mod, v.value, local, depth + 1))
+            else:
+                parts.append(_const_text(ix, mod, v, local, depth + 1))
+        return None if any(p is None for p in parts) else "".join(parts)  # type: ignore[arg-type]
+    if isinstance(e, ast.BinOp) and isinstance(e.op, ast.Add):
+        a, b = _const_text(ix, mod, e.left, local, depth + 1), _const_text(ix, mod, e.right, local, depth + 1)
+        return None if a is None or b is None else a + b
+    d = dotted(e)
+    if d is None:
+        return None
+    if local is not None and isinstance(e, ast.Name) and e.id in local.defs:
+        vals = local.defs[e.id]
+        return _const_text(ix, mod, vals[0][2], local, depth + 1) if len(vals) == 1 and vals[0][0] == "assign" else None
+    r = ix.resolve(mod, d)
+    if r and r[0] == "var":
+        m, name = r[1]
+        return _const_text(ix, m, m.variables.get(name), None, depth + 1)
+    return None
+
+
+def _regex_termination(rep: Report, ctx: Any) -> None:
+    """Instances: every pattern the package hands to the `re` module.  Oracle: every unbounded repetition of the pattern divides any
+    text in one way only (`_Rx.one_division`)."""
+    from ..astutil import Locals
+
+    try:
+        import re._parser as sp  # type: ignore[import-not-found]
+    except ImportError:  # pragma: no cover
+        import sre_parse as sp  # type: ignore[no-redef]
+    ix = ctx.py
+    n_rx = 0
+    for m in ix.modules.values():
+        owners = [(f.node, f) for f in ix.all_functions if f.module is m]
+        for c in ast.walk(m.tree):
+            if not isinstance(c, ast.Call):
+                continue
+            d = dotted(c.func)
+            r = ix.resolve(m, d) if d else None
+            if not (r and r[0] == "ext" and r[1].startswith("re.") and r[1][3:] in _RE_FUNCS):
+                continue
+            pat_e = c.args[0] if c.args else next((k.value for k in c.keywords if k.arg == "pattern"), None)
+            inner = [f for node, f in owners if any(x is c for x in ast.walk(node))]
+            f = inner[-1] if inner else None
+            at = f"{m.rel}:{c.lineno}"
+            text = _const_text(ix, m, pat_e, Locals(f.node) if f is not None else None)
+            if text is None:
+                # a pattern compiled elsewhere is judged where it is compiled
+                pd = dotted(pat_e) if pat_e is not None else None
+                rr = ix.resolve(m, pd) if pd else None
+                compiled = rr and rr[0] == "var" and isinstance(rr[1][0].variables.get(rr[1][1]), ast.Call)
+                if not compiled:
+                    rep.not_decided.append(f"R06.4: the pattern `{norm(pat_e)[:60]}` at {at} is not a constant of the source: its repetitions are not decided")
+                continue
+            n_rx += 1
+            flags = 0
+            for fe in [*c.args[1:], *[k.value for k in c.keywords if k.arg == "flags"]]:
+                if any(isinstance(x, ast.Attribute) and x.attr in ("I", "IGNORECASE") for x in ast.walk(fe)):
+                    flags |= 2
+            key = f"{short(f) if f is not None else m.name.replace(PKG + '.', '') or PKG}::regex {text[:60]}"
+            try:
+                parsed = sp.parse(text)
+            except Exception as ex:  # noqa: BLE001  (a pattern the library rejects fails at import / first use: reported as it is)
+                rep.fail("R06.4", key, f"the pattern does not parse: {ex}", where=at)
+                continue
+            bad = _Rx(ctx.tables, flags | parsed.state.flags).ambiguous_repeats(parsed)
+            rep.check(not bad, "R06.4", key, f"the iterations of {', '.join('`' + b + '`' for b in bad[:3])} can divide the same text in more "
+                      "than one way (what one iteration matches has no fixed length and no delimiter of its own): on a text that fails to "
+                      "match further on the engine tries every division - exponential backtracking, the match does not come to an end",
+                      where=at, lhs=bad[:3], rhs="every unbounded repetition divides a text in one way only", pattern=text[:120])
+    rep.floor("regular_expressions", n_rx, 2)
+
+
+# ---------------------------------------------------------------------------------------------------------------------------------
+# R06.2 (iv): container operations on values that may be scalars
+
+_SCALARS = {"bool", "int", "float"}
+_ITERATING = {"set", "list", "tuple", "sorted", "frozenset", "enumerate", "sum", "any", "all", "min", "max", "dict", "iter", "reversed", "len"}
+_ITERATING_ALL_ARGS = {"zip", "chain"}
+_ITERATING_METHODS = {"update", "extend", "union", "intersection", "difference", "symmetric_difference", "issubset", "issuperset",
+                      "isdisjoint", "join"}
+
+
+def _alternatives(e: ast.expr) -> list[ast.expr]:
+    """the expressions whose value `e` can hand on: the operands of `a or b` / `a and b`, the arms of a conditional expression"""
+    if isinstance(e, ast.BoolOp):
+        return [x for v in e.values for x in _alternatives(v)]
+    if isinstance(e, ast.IfExp):
+        return _alternatives(e.body) + _alternatives(e.orelse)
+    if isinstance(e, ast.NamedExpr):
+        return _alternatives(e.value)
+    return [e]
+
+
+def _container_uses(fn: ast.AST) -> list[tuple[str, ast.AST, ast.expr]]:
+    """(operation, node, operand) for every operation of the function that needs its operand to be a container / iterable: iteration
+    (for, comprehensions, unpacking, the iterating builtins and collection methods), len(), membership test, subscription"""
+    out: list[tuple[str, ast.AST, ast.expr]] = []
+    for n in _own_nodes(fn):
+        if isinstance(n, (ast.For, ast.AsyncFor, ast.comprehension)):
+            out.append(("iteration", n, n.iter))
+        elif isinstance(n, ast.Call):
+            cn = call_name(n)
+            last = cn.rsplit(".", 1)[-1]
+            if cn in _ITERATING and n.args:
+                out.append((f"{cn}()", n, n.args[0]))
+            elif last in _ITERATING_ALL_ARGS and cn in (last, f"itertools.{last}"):
+                out += [(f"{last}()", n, a) for a in n.args if not isinstance(a, ast.Starred)]
+            elif cn in ("map", "filter") and len(n.args) >= 2:
+                out += [(f"{cn}()", n, a) for a in n.args[1:]]
+            elif isinstance(n.func, ast.Attribute) and n.func.attr in _ITERATING_METHODS:
+                out += [(f".{n.func.attr}()", n, a) for a in n.args if not isinstance(a, ast.Starred)]
+        elif isinstance(n, ast.Compare) and len(n.ops) == 1 and isinstance(n.ops[0], (ast.In, ast.NotIn)):
+            out.append(("`in`", n, n.comparators[0]))
+        elif isinstance(n, ast.Starred) and isinstance(n.ctx, ast.Load):
+            out.append(("unpacking", n, n.value))
+        elif isinstance(n, ast.Subscript) and isinstance(n.ctx, ast.Load):
+            out.append(("subscription", n, n.value))
+    return out
+
+
+def _isinstance_of(test: ast.AST, text: str) -> list[str] | None:
+    """the class names of `isinstance(<text>, ...)`, None when the expression is no such test"""
+    if isinstance(test, ast.Call) and call_name(test) == "isinstance" and len(test.args) == 2 and norm(test.args[0]) == text:
+        return [(dotted(x) or norm(x)).rsplit(".", 1)[-1] for x in (test.args[1].elts if isinstance(test.args[1], ast.Tuple) else [test.args[1]])]
+    return None
+
+
+def _excludes(classes: list[str], outcome: bool, scalars: set[str]) -> bool:
+    """the outcome of isinstance(x, classes) rules out that x is one of the scalar types"""
+    numeric = {"bool": {"bool", "int"}, "int": {"int"}, "float": {"float"}}  # isinstance(True, int)
+    wide = {"object", "Any", "Number", "Real", "Rational", "Integral", "Complex", "complex", "Hashable"}
+    if outcome:
+        return not any(c in wide or c in _SCALARS for c in classes)
+    return all(any(c in numeric[s] or c in wide for c in classes) for s in scalars)
+
+
+def _scalar_excluded(f: FuncInfo, ix: Any, node: ast.AST, text: str, scalars: set[str]) -> bool:
+    """on every way to the operation an isinstance test on the operand (same text) has ruled the scalar types out - inside the
+    expression (arms of a conditional expression, later operands of and / or) or on every path of the statement CFG"""
+    from ..astutil import stmt_of
+    from ..cfg import own_exprs
+
+    found = False
+
+    def rec(cur: ast.AST, guarded: bool) -> None:
+        nonlocal found
+        if cur is node:
+            found = found or guarded
+            return
+        if isinstance(cur, ast.IfExp):
+            facts = _implied(cur.test, True), _implied(cur.test, False)
+            g = [guarded or any((cl := _isinstance_of(a, text)) is not None and _excludes(cl, v, scalars) for a, v in fs) for fs in facts]
+            rec(cur.test, guarded)
+            rec(cur.body, g[0])
+            rec(cur.orelse, g[1])
+            return
+        if isinstance(cur, ast.BoolOp):
+            g = guarded
+            for v in cur.values:
+                rec(v, g)
+                want = isinstance(cur.op, ast.And)  # the next operand is evaluated only if this one was true (and) / false (or)
+                g = g or any((cl := _isinstance_of(a, text)) is not None and _excludes(cl, val, scalars) for a, val in _implied(v, want))
+            return
+        for k in ast.iter_child_nodes(cur):
+            if not isinstance(k, (ast.stmt, ast.ExceptHandler)):
+                rec(k, guarded)
+
+    st = stmt_of(f.node, node)
+    if st is None:
+        return False
+    for e in own_exprs(st):
+        rec(e, False)
+    if found:
+        return True
+    fl = _Flow(f, ix)
+
+    def passes_guard(a: object, lab: bool | None) -> bool:
+        if lab is None or not isinstance(a, (ast.If, ast.While)):
+            return False
+        return any((cl := _isinstance_of(atom, text)) is not None and _excludes(cl, v, scalars) for atom, v in _implied(a.test, lab))
+
+    entry = [(_ENTRY, None, b) for b, _ in fl.out(_ENTRY)]
+    return not fl.reach(entry, [st], stop_edge=passes_guard)
+
+
+def _container_operations(rep: Report, ctx: Any, funcs: list[FuncInfo], validators: list[FuncInfo]) -> None:
+    """Instances: every container operation whose operand is document-derived (abstract interpreter).  Obligation: the operand's
+    abstract type - what the pydantic field it comes from admits, what the code assigned - contains no scalar type (bool, int,
+    float), or an isinstance test has excluded it on every way there.  `x or []` only replaces None / False / 0, not True or 5."""
+    from ..astutil import role_anon
+
+    ix = ctx.py
+    it, _ = ctx.flow
+    n_ops = 0
+    for f in funcs:
+        for what, node, operand in _container_uses(f.node):
+            for alt in _alternatives(operand):
+                av = it.node_av.get(id(alt))
+                if av is None or not (av.labels & {RAW, RAW_NONSTR, UNKNOWN}):
+                    continue
+                n_ops += 1
+                scalars = set(av.types & _SCALARS)
+                ok = not scalars or _scalar_excluded(f, ix, alt, norm(alt), scalars)
+                exc = "TypeError" if f not in validators else "TypeError (not wrapped into ValidationError)"
+                rep.check(ok, "R06.2", f"{short(f)}::{what} on {role_anon(alt, f.node)[:50]}",
+                          f"{what} is applied to `{norm(alt)[:60]}`, a value taken from the document that may be a {' / '.join(sorted(scalars))} "
+                          f"(abstract type {sorted(av.types)[:6]}) and that no isinstance test has narrowed: {exc} instead of a diagnostic",
+                          where(f, node), lhs=sorted(av.types)[:8], rhs="a container type, or an isinstance test on every way to the operation")
+    rep.floor("container_operations_on_document_values", n_ops, 12)
+
+
+# ---------------------------------------------------------------------------------------------------------------------------------
+# R06.5 machinery: what cli.handle_errors does with the diagnostics it is given, decided by abstract evaluation.  The property
+# distinguishes the inputs only by (a) is the sequence of diagnostics empty, (b) does SOME diagnostic have the level ERROR, (c) is
+# fail_on_warning set.  The function body (and the functions of the repository it calls) is evaluated once per combination over
+# abstract values: constants and dotted names, records (constructor calls of field-only classes, tuple / dict displays), collections
+# described by the KINDS of element they hold (each kind guaranteed to occur or not), the diagnostics themselves, and "unknown".
+# Under (b) the diagnostics hold one element whose `level == ERROR` is true (guaranteed) and others for which it is unknown; otherwise
+# only elements for which it is false.  A loop over such a collection is iterated to a fixpoint in two phases around the iteration
+# that meets the guaranteed element, so "set in some iteration and never reset" and "return at the first match" come out alike,
+# whether the scan is a loop with a flag / level variable / break, an `any(...)`, a filtered list, a counter, or lives in a helper that
+# returns a scalar, a tuple or a record.  Tests whose value is unknown are followed both ways.  Nothing of the repository is run.
+
+_TOP: tuple = ("top",)
+_TRUTHY: tuple = ("truthy",)
+_FALSY: tuple = ("falsy",)
+_NONE: tuple = ("k", "c", None)
+_PURE_CALLS = _READONLY | _WRAPPERS | {"next", "filter", "map", "range", "hasattr", "getattr", "callable", "format", "pformat"}
+
+
+class _NotFollowed(Exception):
+    """the evaluation met a construct it does not model"""
+
+
+class _Raises(Exception):
+    def __init__(self, excs: list[tuple]) -> None:
+        super().__init__("raises")
+        self.excs = excs
+
+
+def _kc(v: Any) -> tuple:
+    return ("k", "c", v)
+
+
+def _comp(kinds: Any) -> tuple:
+    out: list[tuple] = []
+    for g, v in kinds:
+        if (True, v) in out or (g, v) in out:
+            continue
+        if g and (False, v) in out:
+            out.remove((False, v))
+        out.append((g, v))
+    return ("comp", tuple(out))
+
+
+def _freeze(env: dict[str, tuple]) -> tuple:
+    return tuple(sorted(env.items()))
+
+
+def _dedupe(outs: list[tuple[str, dict[str, tuple], Any]]) -> list[tuple[str, dict[str, tuple], Any]]:
+    seen: set[tuple] = set()
+    res = []
+    for kind, env, v in outs:
+        k = (kind, _freeze(env), v)
+        if k not in seen:
+            seen.add(k)
+            res.append((kind, env, v))
+    return res
+
+
+class _ExitEval:
+    def __init__(self, ix: Any, diag_param: str, flag_param: str) -> None:
+        self.ix = ix
+        self.diag_param, self.flag_param = diag_param, flag_param
+        lv = [c for c in ix.classes.values() if c.name == "ErrorLevel"]
+        self.level_cls = lv[0] if len(lv) == 1 else None
+        self.members = [m for m in (self.level_cls.classvars if self.level_cls else {}) if not m.startswith("_")]
+        self.scans: set[str] = set()
+        self.ticks = 0
+        self.stack: list[FuncInfo] = []
+        self.pending: list[tuple] = []
+        self.lams: dict[int, ast.Lambda] = {}
+
+    # ---------------------------------------------------------------------------------------------------------------- entry
+    def outcomes(self, f: FuncInfo, empty: bool, has_error: bool, flag: bool) -> set[str]:
+        """how a call of f can end: 'end' (returns, or exit status 0), 'exit1' (non-zero exit status), 'exit?' (an exit status that
+        is not a constant), 'crash:<exception>'"""
+        if empty:
+            diags = _comp([])
+        elif has_error:
+            diags = _comp([(True, ("elem", True)), (False, ("elem", None))])
+        else:
+            diags = _comp([(True, ("elem", False))])
+        env = {p.arg: _TOP for p in f.params}
+        env[self.diag_param] = diags
+        env[self.flag_param] = _kc(flag)
+        self.stack = [f]
+        self.ticks = 0
+        out: set[str] = set()
+        for kind, _, v in self.block(f.node.body, env):
+            out.add(self.classify(v) if kind == "raise" else "end")
+        return out
+
+    @staticmethod
+    def classify(v: tuple) -> str:
+        if v[0] == "exc" and v[1] == "Exit":
+            code = v[2]
+            if code[:2] == ("k", "c"):
+                return "end" if code[2] in (0, None, False) else "exit1"
+            return "exit1" if code in (_TRUTHY, ("num", "pos")) else "end" if code == _FALSY else "exit?"
+        return f"crash:{v[1] if v[0] == 'exc' else '?'}"
+
+    def tick(self) -> None:
+        self.ticks += 1
+        if self.ticks > 60000:
+            raise _NotFollowed("the evaluation of the exit status does not come to an end")
+
+    @property
+    def mod(self) -> Any:
+        return self.stack[-1].module
+
+    # ---------------------------------------------------------------------------------------------------------------- values
+    def canon(self, d: str, mod: Any, depth: int = 0) -> tuple:
+        r = self.ix.resolve(mod, d) if mod is not None else None
+        if r is None:
+            return ("k", "n", d)
+        kind, obj = r
+        if kind == "classvar":
+            return ("k", "n", f"{obj[0].qual}.{obj[1]}")
+        if kind in ("class", "func"):
+            return ("k", "n", obj.qual)
+        if kind == "ext":
+            return ("k", "n", obj)
+        if kind == "module":
+            return ("k", "n", obj.name)
+        if kind == "var":
+            m, name = obj
+            v = m.variables.get(name)
+            if depth < 3 and isinstance(v, ast.Constant):
+                return _kc(v.value)
+            if depth < 3 and v is not None and dotted(v):
+                return self.canon(dotted(v) or "", m, depth + 1)
+            return ("k", "n", f"{m.name}.{name}")
+        return ("k", "n", d)
+
+    def truth(self, v: tuple) -> bool | None:
+        if v[0] == "k":
+            return bool(v[2]) if v[1] == "c" else None
+        if v[0] == "comp":
+            return False if not v[1] else True if any(g for g, _ in v[1]) else None
+        if v[0] == "rec":
+            return bool(v[2]) if v[1] in (None, "dict") else None
+        if v[0] == "num":
+            return True if v[1] == "pos" else None
+        return True if v == _TRUTHY else False if v == _FALSY else None
+
+    def _member(self, b: tuple, attr: str | None) -> str | None:
+        """the member of the level enumeration that b denotes when compared with <level>, <level>.value or <level>.name ('' none)"""
+        if self.level_cls is None:
+            return None
+        if attr is None:
+            if b[:2] == ("k", "n"):
+                pre = self.level_cls.qual + "."
+                return b[2][len(pre):] if b[2].startswith(pre) and b[2][len(pre):] in self.members else None
+            return "" if b[:2] == ("k", "c") else None
+        if b[:2] != ("k", "c"):
+            return None
+        if attr == "name":
+            return b[2] if b[2] in self.members else ""
+        hits = [m for m in self.members if isinstance(self.level_cls.classvars[m], ast.Constant) and self.level_cls.classvars[m].value == b[2]]
+        if len(hits) == 1:
+            return hits[0]
+        return "" if all(isinstance(self.level_cls.classvars[m], ast.Constant) for m in self.members) else None
+
+    def eq(self, a: tuple, b: tuple, site: ast.AST | None = None) -> bool | None:
+        if b[0] == "lvl":
+            a, b = b, a
+        if a[0] == "lvl":
+            if b[0] == "lvl":
+                return None
+            m = self._member(b, a[2])
+            if m is None:
+                return None
+            if m == "":
+                return False
+            if site is not None:
+                self.scans.add(norm(site))
+            if m == "ERROR":
+                return a[1]
+            if a[1] is True:
+                return False
+            return True if a[1] is False and sorted(self.members) == sorted(["ERROR", m]) else None
+        if a[0] == "k" and b[0] == "k":
+            if a[1] == "c" and b[1] == "c":
+                return bool(a[2] == b[2])
+            if a[1] == "n" and b[1] == "n":
+                if a[2] == b[2]:
+                    return True
+                ca, _, ma = a[2].rpartition(".")
+                cb, _, mb = b[2].rpartition(".")
+                ci = self.ix.classes.get(ca)
+                if ca == cb and ci is not None and any("Enum" in x for x in ci.bases) and ma in ci.classvars and mb in ci.classvars \
+                        and norm(ci.classvars[ma]) != norm(ci.classvars[mb]):
+                    return False
+                return None
+            return False if _NONE in (a, b) else None
+        if _NONE in (a, b) and (a[0] in ("elem", "rec", "comp", "exc", "num") or b[0] in ("elem", "rec", "comp", "exc", "num")):
+            return False
+        if b[0] == "num":
+            a, b = b, a
+        if a[0] == "num" and b[:2] == ("k", "c"):  # an integer >= 1 ('pos') / >= 0
+            if not isinstance(b[2], (int, float)) or b[2] < (1 if a[1] == "pos" else 0):
+                return False
+        return None
+
+    def join(self, vals: list[tuple]) -> tuple:
+        if not vals:
+            return _TOP
+        cur = vals[0]
+        for v in vals[1:]:
+            if v == cur:
+                continue
+            if cur[0] == "elem" and v[0] == "elem":
+                cur = ("elem", None)
+            elif cur[0] == "rec" and v[0] == "rec" and cur[1] == v[1] and [n for n, _ in cur[2]] == [n for n, _ in v[2]]:
+                cur = ("rec", cur[1], tuple((n, self.join([x, y])) for (n, x), (_, y) in zip(cur[2], v[2])))
+            elif cur[0] == "comp" and v[0] == "comp":
+                both = {x for g, x in cur[1] if g} & {x for g, x in v[1] if g}
+                cur = _comp([(x in both, x) for _, x in cur[1] + v[1]])
+            elif self.truth(cur) is not None and self.truth(cur) == self.truth(v):
+                cur = _TRUTHY if self.truth(cur) else _FALSY
+            else:
+                return _TOP
+        return cur
+
+    def field(self, r: tuple, name: str) -> tuple:
+        return next((v for n, v in r[2] if n == name), _TOP)
+
+    def as_comp(self, v: tuple) -> tuple | None:
+        if v[0] == "comp":
+            return v
+        if v[0] == "rec" and v[1] is None:
+            return _comp([(True, x) for _, x in v[2]])
+        return None
+
+    # ---------------------------------------------------------------------------------------------------------------- expressions
+    def ev(self, e: ast.AST | None, env: dict[str, tuple]) -> tuple:
+        self.tick()
+        if e is None:
+            return _NONE
+        if isinstance(e, ast.Constant):
+            return _kc(e.value)
+        if isinstance(e, ast.Name):
+            return env[e.id] if e.id in env else self.canon(e.id, self.mod)
+        if isinstance(e, ast.NamedExpr):
+            v = self.ev(e.value, env)
+            self.bind(e.target, v, env)
+            return v
+        if isinstance(e, ast.Attribute):
+            d = dotted(e)
+            if d is not None and _root(e) not in env:
+                return self.canon(d, self.mod)
+            b = self.ev(e.value, env)
+            if b[0] == "rec":
+                return self.field(b, e.attr)
+            if b[0] == "elem":
+                return ("lvl", b[1], None) if e.attr == "level" else _TOP
+            if b[0] == "lvl" and b[2] is None and e.attr in ("value", "name"):
+                return ("lvl", b[1], e.attr)
+            if b[:2] == ("k", "n"):
+                return ("k", "n", f"{b[2]}.{e.attr}")
+            return _TOP
+        if isinstance(e, ast.Subscript):
+            b = self.ev(e.value, env)
+            i = self.ev(e.slice, env) if not isinstance(e.slice, ast.Slice) else _TOP
+            if b[0] == "rec" and i[:2] == ("k", "c"):
+                if b[1] == "dict":
+                    return self.field(b, i[2]) if isinstance(i[2], str) else _TOP
+                if isinstance(i[2], int) and not isinstance(i[2], bool) and -len(b[2]) <= i[2] < len(b[2]):
+                    return b[2][i[2]][1]
+            if b[0] == "comp" and isinstance(e.slice, ast.Slice) and e.slice.lower is None and e.slice.upper is None:
+                return b
+            return _TOP
+        if isinstance(e, ast.UnaryOp):
+            v = self.ev(e.operand, env)
+            if isinstance(e.op, ast.Not):
+                t = self.truth(v)
+                return _TOP if t is None else _kc(not t)
+            return _TOP
+        if isinstance(e, ast.BoolOp):
+            is_or = isinstance(e.op, ast.Or)
+            unknown = False
+            v = _TOP
+            for x in e.values:
+                v = self.ev(x, env)
+                t = self.truth(v)
+                if t is None:
+                    unknown = True
+                elif t == is_or:  # decides the operation (if it is reached, and it is unless an earlier operand decided likewise)
+                    return (v if not unknown else _TRUTHY if is_or else _FALSY)
+            return _TOP if unknown else v
+        if isinstance(e, ast.Compare):
+            if len(e.ops) != 1:
+                for c in e.comparators:
+                    self.ev(c, env)
+                return _TOP
+            a, b = self.ev(e.left, env), self.ev(e.comparators[0], env)
+            op = e.ops[0]
+            if isinstance(op, (ast.Eq, ast.Is, ast.NotEq, ast.IsNot)):
+                r = self.eq(a, b, e)
+                return _TOP if r is None else _kc(r == isinstance(op, (ast.Eq, ast.Is)))
+            if isinstance(op, (ast.In, ast.NotIn)):
+                c = self.as_comp(b)
+                if c is None:
+                    return _TOP
+                rs = [(g, self.eq(a, x, e)) for g, x in c[1]]
+                r = True if any(g and t is True for g, t in rs) else False if all(t is False for _, t in rs) else None
+                return _TOP if r is None else _kc(r == isinstance(op, ast.In))
+            return self._order(a, b, op)
+        if isinstance(e, ast.IfExp):
+            t = self.truth(self.ev(e.test, env))
+            if t is not None:
+                return self.ev(e.body if t else e.orelse, env)
+            return self.join([self.ev(e.body, dict(env)), self.ev(e.orelse, dict(env))])
+        if isinstance(e, (ast.Tuple, ast.List, ast.Set)):
+            if any(isinstance(x, ast.Starred) for x in e.elts):
+                for x in e.elts:
+                    self.ev(x.value if isinstance(x, ast.Starred) else x, env)
+                return _TOP
+            vals = [self.ev(x, env) for x in e.elts]
+            if isinstance(e, ast.Tuple):
+                return ("rec", None, tuple((str(i), v) for i, v in enumerate(vals)))
+            return _comp([(True, v) for v in vals])
+        if isinstance(e, ast.Dict):
+            vals = [self.ev(v, env) for v in e.values]
+            if all(isinstance(k, ast.Constant) and isinstance(k.value, str) for k in e.keys):
+                return ("rec", "dict", tuple((k.value, v) for k, v in zip(e.keys, vals)))  # type: ignore[union-attr]
+            return _TOP
+        if isinstance(e, (ast.ListComp, ast.SetComp, ast.GeneratorExp)):
+            return self._comprehension(e, env)
+        if isinstance(e, ast.Lambda):
+            self.lams[id(e)] = e
+            return ("lam", id(e))
+        if isinstance(e, ast.BinOp):
+            return self._binop(self.ev(e.left, env), e.op, self.ev(e.right, env))
+        if isinstance(e, ast.Call):
+            return self._call(e, env)
+        if isinstance(e, ast.Starred):
+            return self.ev(e.value, env)
+        if isinstance(e, (ast.JoinedStr, ast.FormattedValue)):
+            for x in ast.iter_child_nodes(e):
+                if isinstance(x, ast.expr):
+                    self.ev(x, env)
+            return _TOP
+        if isinstance(e, (ast.Yield, ast.YieldFrom, ast.Await)):
+            raise _NotFollowed(f"`{norm(e)[:40]}`")
+        for x in ast.iter_child_nodes(e):
+            if isinstance(x, ast.expr):
+                self.ev(x, env)
+        return _TOP
+
+    def _order(self, a: tuple, b: tuple, op: ast.cmpop) -> tuple:
+        if a[:2] == ("k", "c") and b[:2] == ("k", "c") and isinstance(a[2], (int, float)) and isinstance(b[2], (int, float)):
+            return _kc({ast.Lt: a[2] < b[2], ast.LtE: a[2] <= b[2], ast.Gt: a[2] > b[2], ast.GtE: a[2] >= b[2]}[type(op)])
+        mirror = {ast.Gt: ast.Lt, ast.Lt: ast.Gt, ast.GtE: ast.LtE, ast.LtE: ast.GtE}
+        if a[:2] == ("k", "c"):
+            a, b, op = b, a, mirror[type(op)]()
+        if a[0] == "num" and b[:2] == ("k", "c") and isinstance(b[2], (int, float)):
+            c = b[2]
+            if a[1] == "pos":  # an integer >= 1
+                r = {ast.Gt: True if c < 1 else None, ast.GtE: True if c <= 1 else None, ast.Lt: False if c <= 1 else None,
+                     ast.LtE: False if c < 1 else None}[type(op)]
+            else:  # an integer >= 0
+                r = {ast.Gt: True if c < 0 else None, ast.GtE: True if c <= 0 else None, ast.Lt: False if c <= 0 else None,
+                     ast.LtE: False if c < 0 else None}[type(op)]
+            return _TOP if r is None else _kc(r)
+        return _TOP
+
+    def _binop(self, a: tuple, op: ast.operator, b: tuple) -> tuple:
+        def nonneg(v: tuple) -> bool:
+            return v[0] == "num" or (v[:2] == ("k", "c") and isinstance(v[2], (int, bool)) and v[2] >= 0)
+
+        def pos(v: tuple) -> bool:
+            return v == ("num", "pos") or (v[:2] == ("k", "c") and isinstance(v[2], (int, bool)) and v[2] > 0)
+
+        if isinstance(op, ast.Add):
+            if nonneg(a) and nonneg(b):  # counters are not followed beyond zero / at least one (the evaluation has to settle)
+                return ("num", "pos") if pos(a) or pos(b) else _kc(0) if a[0] == "k" and b[0] == "k" else ("num", "nonneg")
+            ca, cb = self.as_comp(a), self.as_comp(b)
+            if ca is not None and cb is not None and a[0] == b[0]:
+                return _comp(ca[1] + cb[1])
+        if isinstance(op, (ast.BitOr, ast.BitAnd)):
+            # bool, int and set alike: a | b is truthy iff one operand is, a & b is falsy if one operand is
+            if a[:2] == ("k", "c") and b[:2] == ("k", "c") and all(isinstance(x[2], (bool, int)) for x in (a, b)):
+                return _kc(a[2] | b[2] if isinstance(op, ast.BitOr) else a[2] & b[2])
+            ta, tb = self.truth(a), self.truth(b)
+            if isinstance(op, ast.BitOr):
+                ca, cb = self.as_comp(a), self.as_comp(b)
+                if ca is not None and cb is not None:
+                    return _comp(ca[1] + cb[1])
+                return _TRUTHY if True in (ta, tb) else _FALSY if (ta, tb) == (False, False) else _TOP
+            return _FALSY if False in (ta, tb) else _TOP
+        return _TOP
+
+    def _comprehension(self, e: Any, env: dict[str, tuple]) -> tuple:
+        if len(e.generators) != 1 or e.generators[0].is_async:
+            return _TOP
+        g = e.generators[0]
+        src = self.as_comp(self.ev(g.iter, env))
+        if src is None:
+            return _TOP
+        kinds = []
+        for guaranteed, x in src[1]:
+            env2 = dict(env)
+            self.bind(g.target, x, env2)
+            keep: bool | None = True
+            for c in g.ifs:
+                t = self.truth(self.ev(c, env2))
+                keep = False if t is False or keep is False else None if t is None else keep
+                if keep is False:
+                    break
+            if keep is False:
+                continue
+            kinds.append((guaranteed and keep is True, self.ev(e.elt, env2)))
+        return _comp(kinds)
+
+    def _exists(self, c: tuple, want: bool) -> bool | None:
+        """does the collection hold an element whose truth is `want`"""
+        ts = [(g, self.truth(x)) for g, x in c[1]]
+        if any(g and t is want for g, t in ts):
+            return True
+        return False if all(t is (not want) for _, t in ts) else None
+
+    def _apply(self, fn: tuple, args: list[tuple], env: dict[str, tuple]) -> tuple:
+        if fn[0] == "lam":
+            lam = self.lams[fn[1]]
+            env2 = dict(env)
+            ps = [*lam.args.posonlyargs, *lam.args.args]
+            if len(ps) != len(args) or lam.args.vararg or lam.args.kwarg or lam.args.kwonlyargs:
+                return _TOP
+            for p, a in zip(ps, args):
+                env2[p.arg] = a
+            return self.ev(lam.body, env2)
+        if fn[:2] == ("k", "n"):
+            h = self.ix.functions.get(fn[2])
+            if h is not None and h.cls is None:
+                return self._invoke(h, dict(zip([p.arg for p in h.params], args)) if len(args) <= len(h.params) else None)
+        return _TOP
+
+    def _call(self, c: ast.Call, env: dict[str, tuple]) -> tuple:
+        starred = any(isinstance(a, ast.Starred) for a in c.args) or any(k.arg is None for k in c.keywords)
+        # method calls on a tracked local collection
+        if isinstance(c.func, ast.Attribute) and isinstance(c.func.value, ast.Name) and c.func.value.id in env \
+                and env[c.func.value.id][0] in ("comp", "rec"):
+            recv, a = c.func.value.id, c.func.attr
+            args = [self.ev(x, env) for x in c.args] + [self.ev(k.value, env) for k in c.keywords]
+            cur = env[recv]
+            if cur[0] == "comp":
+                if a in ("append", "add", "appendleft") and len(args) == 1:
+                    env[recv] = _comp(cur[1] + ((True, args[0]),))
+                    return _NONE
+                if a in ("extend", "update", "extendleft") and len(args) == 1 and self.as_comp(args[0]) is not None:
+                    env[recv] = _comp(cur[1] + self.as_comp(args[0])[1])  # type: ignore[index]
+                    return _NONE
+                if a == "clear":
+                    env[recv] = _comp([])
+                    return _NONE
+                if a == "copy" and not args:
+                    return cur
+                if a in _GROW or a in _SHRINK or a in ("sort", "reverse"):
+                    env[recv] = _TOP if a not in ("sort", "reverse") else cur
+                    return _TOP
+            elif cur[0] == "rec" and cur[1] == "dict" and a == "get" and args and args[0][:2] == ("k", "c"):
+                return next((v for n, v in cur[2] if n == args[0][2]), args[1] if len(args) > 1 else _NONE)
+        fn = self.ev(c.func, env)
+        args = [self.ev(x, env) for x in c.args]
+        kws = {k.arg: self.ev(k.value, env) for k in c.keywords}
+        name = fn[2] if fn[:2] == ("k", "n") else ""
+        last = name.rsplit(".", 1)[-1]
+        # collections handed to code that is not followed may be changed by it
+        followed = name in self.ix.functions and self.ix.functions[name].cls is None
+        for x in [*c.args, *[k.value for k in c.keywords]]:
+            if isinstance(x, ast.Name) and x.id in env and env[x.id][0] in ("comp", "rec") and x.id != self.diag_param:
+                if followed:
+                    h = self.ix.functions[name]
+                    p = _param_for(h, c, c.args.index(x)) if x in c.args else next(k.arg for k in c.keywords if k.value is x)
+                    if p is None or _mut_kinds(self.ix, h, list(h.node.body), ast.Name(id=p, ctx=ast.Load())) & {"grow", "shrink", "escape"} \
+                            or any(isinstance(n, (ast.Attribute, ast.Subscript)) and isinstance(n.ctx, (ast.Store, ast.Del)) and _root(n) == p
+                                   for n in ast.walk(h.node)):
+                        env[x.id] = _TOP
+                elif env[x.id][0] == "comp" and not (name in _PURE_CALLS or last in _PURE_CALLS):
+                    env[x.id] = _TOP
+        if starred:
+            return _TOP
+        if fn[0] == "lam":
+            return self._apply(fn, args, env) if not kws else _TOP
+        if not name:
+            return _TOP
+        # process exit
+        if last in ("Exit", "SystemExit") and name in ("typer.Exit", "click.exceptions.Exit", "click.Exit", "SystemExit", "typer.exceptions.Exit"):
+            return ("exc", "Exit", kws.get("code", args[0] if args else _kc(0)))
+        if name in ("sys.exit", "exit", "quit", "os._exit"):
+            raise _Raises([("exc", "Exit", args[0] if args else _kc(0))])
+        if name in self.ix.functions:
+            h = self.ix.functions[name]
+            if h.cls is not None:
+                return self._unfollowed(h)
+            bound: dict[str, tuple] | None = {}
+            for i, a in enumerate(args):
+                p = _param_for(h, c, i)
+                if p is None:
+                    bound = None
+                    break
+                bound[p] = a
+            if bound is not None:
+                for k, v in kws.items():
+                    if k not in [p.arg for p in h.params]:
+                        bound = None
+                        break
+                    bound[k] = v  # type: ignore[index]
+            return self._invoke(h, bound)
+        if name in self.ix.classes:
+            return self._construct(self.ix.classes[name], args, kws)
+        comp = self.as_comp(args[0]) if args else None
+        if name in ("len",) and comp is not None:
+            t = self.truth(comp)
+            return _kc(0) if t is False else ("num", "pos") if t else ("num", "nonneg")
+        if name == "bool" and len(args) == 1:
+            t = self.truth(args[0])
+            return _TOP if t is None else _kc(t)
+        if name in ("any", "all") and comp is not None:
+            r = self._exists(comp, name == "any")
+            return _TOP if r is None else _kc(r == (name == "any"))
+        if name in ("list", "tuple", "set", "frozenset", "sorted", "reversed", "iter", "collections.deque", "deque") and comp is not None:
+            return comp
+        if name in ("list", "set", "frozenset", "dict", "tuple", "collections.deque") and not args and not kws:
+            return _comp([]) if name != "dict" else ("rec", "dict", ())
+        if name == "enumerate" and comp is not None:
+            return _comp([(g, ("rec", None, (("0", ("num", "nonneg")), ("1", x)))) for g, x in comp[1]])
+        if name == "sum" and comp is not None and len(args) == 1:
+            def pos(v: tuple) -> bool | None:
+                if v[:2] == ("k", "c") and isinstance(v[2], (int, bool)):
+                    return v[2] > 0 if v[2] >= 0 else None
+                return True if v == ("num", "pos") else None
+
+            ps = [(g, pos(x)) for g, x in comp[1]]
+            if all(p is False for _, p in ps):
+                return _kc(0)
+            if all(p is not None or x[0] == "num" for (_, p), (_, x) in zip(ps, comp[1])):
+                return ("num", "pos") if any(g and p for g, p in ps) else ("num", "nonneg")
+            return _TOP
+        if name == "next" and comp is not None:
+            alts = [x for _, x in comp[1]]
+            if not any(g for g, _ in comp[1]):  # may be exhausted
+                if len(args) > 1:
+                    alts.append(args[1])
+                elif alts:
+                    self.pending.append(("exc", "StopIteration", _TOP))
+                else:
+                    raise _Raises([("exc", "StopIteration", _TOP)])
+            return self.join(alts)
+        if name in ("filter", "map") and len(args) == 2 and self.as_comp(args[1]) is not None:
+            src = self.as_comp(args[1])
+            kinds = []
+            for g, x in src[1]:  # type: ignore[index]
+                r = self._apply(args[0], [x], env) if args[0] != _NONE else x
+                if name == "map":
+                    kinds.append((g, r))
+                else:
+                    t = self.truth(r)
+                    if t is not False:
+                        kinds.append((g and t is True, x))
+            return _comp(kinds)
+        if last.endswith(("Error", "Exception")) or last in ("BadParameter", "Abort", "KeyboardInterrupt", "StopIteration"):
+            return ("exc", last, _TOP)
+        return _TOP
+
+    def _construct(self, ci: Any, args: list[tuple], kws: dict[Any, tuple]) -> tuple:
+        ks = self.ix.mro(ci)
+        if any(m in k.methods for k in ks for m in ("__init__", "__new__", "__post_init__", "__attrs_post_init__")):
+            return _TOP
+        fields = list(self.ix.all_fields(ci))
+        if len(args) > len(fields) or any(k not in fields for k in kws):
+            return _TOP
+        vals: dict[str, tuple] = dict(zip(fields, args))
+        vals.update(kws)
+        out = []
+        for n in fields:
+            if n in vals:
+                out.append((n, vals[n]))
+                continue
+            dflt = next((k.field_defaults[n] for k in ks if n in k.field_defaults), None)
+            out.append((n, self.ev(dflt, {}) if isinstance(dflt, (ast.Constant, ast.Attribute, ast.Name)) else _TOP))
+        return ("rec", ci.qual, tuple(out))
+
+    def _has_exit(self, h: FuncInfo) -> bool:
+        return any(isinstance(n, (ast.Raise, ast.Call)) and "xit" in norm(n.exc if isinstance(n, ast.Raise) else n.func) for n in ast.walk(h.node))
+
+    def _unfollowed(self, h: FuncInfo, why: str = "") -> tuple:
+        if self._has_exit(h):
+            raise _NotFollowed(f"`{h.name}` ends the process but is not followed by the evaluation{why}")
+        return _TOP
+
+    def _invoke(self, h: FuncInfo, bound: dict[str, tuple] | None) -> tuple:
+        if bound is None or h.parent is not None or h in self.stack or len(self.stack) >= 4 or isinstance(h.node, ast.AsyncFunctionDef) \
+                or h.node.args.vararg or h.node.args.kwarg or any(isinstance(n, (ast.Yield, ast.YieldFrom)) for n in _own_nodes(h.node)) \
+                or [d for d in h.decorators if d.rsplit(".", 1)[-1] not in ("staticmethod", "cache", "lru_cache", "wraps")]:
+            return self._unfollowed(h)
+        a = h.node.args
+        defaults = dict(zip([p.arg for p in [*a.posonlyargs, *a.args]][len(a.posonlyargs) + len(a.args) - len(a.defaults):], a.defaults))
+        defaults.update({p.arg: d for p, d in zip(a.kwonlyargs, a.kw_defaults) if d is not None})
+        self.stack.append(h)
+        try:
+            env = {}
+            for p in h.params:
+                if p.arg in bound:
+                    env[p.arg] = bound[p.arg]
+                elif p.arg in defaults:
+                    env[p.arg] = self.ev(defaults[p.arg], {})
+                else:
+                    return _TOP
+            saved, self.pending = self.pending, []
+            try:
+                outs = self.block(h.node.body, env)
+            except _NotFollowed as ex:
+                self.pending = saved
+                return self._unfollowed(h, f" ({ex})")
+            self.pending = saved
+        finally:
+            self.stack.pop()
+        rets = [v if kind == "return" else _NONE for kind, _, v in outs if kind in ("return", "next")]
+        raises = [v for kind, _, v in outs if kind == "raise"]
+        if raises and not rets:
+            raise _Raises(raises)
+        self.pending += raises
+        return self.join(rets)
+
+    # ---------------------------------------------------------------------------------------------------------------- statements
+    def bind(self, t: ast.AST, v: tuple, env: dict[str, tuple]) -> None:
+        if isinstance(t, ast.Name):
+            env[t.id] = v
+        elif isinstance(t, (ast.Tuple, ast.List)):
+            plain = not any(isinstance(x, ast.Starred) for x in t.elts)
+            for i, x in enumerate(t.elts):
+                self.bind(x.value if isinstance(x, ast.Starred) else x,
+                          v[2][i][1] if plain and v[0] == "rec" and v[1] != "dict" and len(v[2]) == len(t.elts) else _TOP, env)
+        elif isinstance(t, (ast.Attribute, ast.Subscript)):
+            r = _root(t)
+            if r in env:
+                cur = env[r]
+                if isinstance(t, ast.Attribute) and isinstance(t.value, ast.Name) and cur[0] == "rec" and any(n == t.attr for n, _ in cur[2]):
+                    env[r] = ("rec", cur[1], tuple((n, v if n == t.attr else x) for n, x in cur[2]))
+                else:
+                    env[r] = _TOP
+
+    def evx(self, e: ast.AST | None, env: dict[str, tuple]) -> tuple[tuple | None, list[tuple]]:
+        """value of a statement's expression (None: it always raises) and the exceptions its evaluation may raise"""
+        saved, self.pending = self.pending, []
+        try:
+            v: tuple | None = self.ev(e, env)
+        except _Raises as r:
+            v = None
+            self.pending = r.excs + self.pending
+        excs, self.pending = self.pending, saved
+        return v, excs
+
+    def block(self, stmts: list[ast.stmt], env: dict[str, tuple]) -> list[tuple[str, dict[str, tuple], Any]]:
+        done: list[tuple[str, dict[str, tuple], Any]] = []
+        cur = [env]
+        for st in stmts:
+            nxt: list[tuple[str, dict[str, tuple], Any]] = []
+            for e in cur:
+                for o in self.stmt(st, dict(e)):
+                    (nxt if o[0] == "next" else done).append(o)
+            cur = [e for _, e, _ in _dedupe(nxt)]
+            if not cur:
+                break
+        return _dedupe(done + [("next", e, None) for e in cur])
+
+    def stmt(self, st: ast.stmt, env: dict[str, tuple]) -> list[tuple[str, dict[str, tuple], Any]]:
+        self.tick()
+        raised = lambda excs: [("raise", env, x) for x in excs]  # noqa: E731
+        if isinstance(st, (ast.Pass, ast.Assert, ast.Import)):
+            return [("next", env, None)]
+        if isinstance(st, ast.ImportFrom):
+            base = self.ix._abs_import(self.mod, st.level, st.module)
+            for a in st.names:
+                full = f"{base}.{a.name}" if base else a.name
+                r = self.ix._resolve_abs(full, 0)
+                env[a.asname or a.name] = ("k", "n", r[1].qual if r and r[0] in ("class", "func") else r[1] if r and r[0] == "ext" else full)
+            return [("next", env, None)]
+        if isinstance(st, ast.Expr):
+            v, excs = self.evx(st.value, env)
+            return raised(excs) + ([("next", env, None)] if v is not None else [])
+        if isinstance(st, (ast.Assign, ast.AnnAssign)):
+            if st.value is None:
+                return [("next", env, None)]
+            v, excs = self.evx(st.value, env)
+            if v is None:
+                return raised(excs)
+            for t in (st.targets if isinstance(st, ast.Assign) else [st.target]):
+                self.bind(t, v, env)
+            return raised(excs) + [("next", env, None)]
+        if isinstance(st, ast.AugAssign):
+            v, excs = self.evx(st.value, env)
+            if v is None:
+                return raised(excs)
+            if isinstance(st.target, ast.Name):
+                cur = env.get(st.target.id, _TOP)
+                env[st.target.id] = self._binop(cur, st.op, v)
+            else:
+                self.bind(st.target, _TOP, env)
+            return raised(excs) + [("next", env, None)]
+        if isinstance(st, ast.Delete):
+            for t in st.targets:
+                if isinstance(t, ast.Name):
+                    env.pop(t.id, None)
+                else:
+                    self.bind(t, _TOP, env)
+            return [("next", env, None)]
+        if isinstance(st, ast.Return):
+            v, excs = self.evx(st.value, env)
+            return raised(excs) + ([("return", env, v)] if v is not None else [])
+        if isinstance(st, ast.Raise):
+            if st.exc is None:
+                return [("raise", env, _TOP)]
+            v, excs = self.evx(st.exc, env)
+            if v is not None and v[:2] == ("k", "n"):  # `raise SomeClass`
+                v = ("exc", "Exit", _kc(0)) if v[2].rsplit(".", 1)[-1] in ("Exit", "SystemExit") else ("exc", v[2].rsplit(".", 1)[-1], _TOP)
+            return raised(excs) + ([("raise", env, v)] if v is not None else [])
+        if isinstance(st, ast.Break):
+            return [("break", env, None)]
+        if isinstance(st, ast.Continue):
+            return [("continue", env, None)]
+        if isinstance(st, ast.If):
+            v, excs = self.evx(st.test, env)
+            if v is None:
+                return raised(excs)
+            t = self.truth(v)
+            out = raised(excs)
+            if t is not False:
+                out += self.block(st.body, dict(env))
+            if t is not True:
+                out += self.block(st.orelse, dict(env))
+            return out
+        if isinstance(st, ast.For):
+            return self._for(st, env)
+        if isinstance(st, ast.While):
+            return self._while(st, env)
+        if isinstance(st, ast.With):
+            out = []
+            for item in st.items:
+                v, excs = self.evx(item.context_expr, env)
+                out += raised(excs)
+                if item.optional_vars is not None:
+                    self.bind(item.optional_vars, _TOP, env)
+            return out + self.block(st.body, env)
+        if isinstance(st, ast.Try):
+            if any(isinstance(n, (ast.Return, ast.Raise, ast.Break, ast.Continue)) for s in st.finalbody for n in ast.walk(s)):
+                raise _NotFollowed("a `finally` that leaves the block")
+            out = []
+            body = self.block(st.body, dict(env))
+            for o in body:
+                if o[0] == "next":
+                    out += self.block(st.orelse, dict(o[1])) if st.orelse else [o]
+                else:
+                    out.append(o)  # an exception raised in the body is also taken to propagate (a handler may or may not match)
+            if st.handlers:
+                bound = {nm for s in st.body for x in ast.walk(s) for nm in (_binds(x) if isinstance(x, (ast.stmt, ast.ExceptHandler)) else ())}
+                env_h = {k: (_TOP if k in bound else v) for k, v in env.items()}
+                for h in st.handlers:
+                    e2 = dict(env_h)
+                    if h.name:
+                        e2[h.name] = _TOP
+                    out += self.block(h.body, e2)
+            res = []
+            for o in out:
+                if o[0] == "next" and st.finalbody:
+                    res += self.block(st.finalbody, dict(o[1]))
+                else:
+                    res.append(o)
+            return res
+        if isinstance(st, (ast.FunctionDef, ast.AsyncFunctionDef, ast.ClassDef)):
+            env[st.name] = _TOP
+            return [("next", env, None)]
+        raise _NotFollowed(f"a `{type(st).__name__.lower()}` statement")
+
+    def _for(self, st: ast.For, env: dict[str, tuple]) -> list[tuple[str, dict[str, tuple], Any]]:
+        v, excs = self.evx(st.iter, env)
+        if v is None:
+            return [("raise", env, x) for x in excs]
+        src = self.as_comp(v)
+        kinds = src[1] if src is not None else ((False, _TOP),)
+        left: list[tuple[str, dict[str, tuple], Any]] = [("raise", env, x) for x in excs]
+
+        def one(e0: dict[str, tuple], elt: tuple) -> list[dict[str, tuple]]:
+            e1 = dict(e0)
+            self.bind(st.target, elt, e1)
+            nxt = []
+            for kind, e2, val in self.block(st.body, e1):
+                if kind in ("next", "continue"):
+                    nxt.append(e2)
+                elif kind == "break":
+                    left.append(("next", e2, None))
+                else:
+                    left.append((kind, e2, val))
+            return nxt
+
+        def closure(states: list[dict[str, tuple]]) -> list[dict[str, tuple]]:
+            seen = {_freeze(s): s for s in states}
+            work = list(seen.values())
+            while work:
+                s = work.pop()
+                for _, elt in kinds:
+                    for n in one(s, elt):
+                        k = _freeze(n)
+                        if k not in seen:
+                            if len(seen) > 300:
+                                raise _NotFollowed("a loop whose states do not settle")
+                            seen[k] = n
+                            work.append(n)
+            return list(seen.values())
+
+        cur = closure([env])
+        for g, elt in kinds:
+            if g:  # the iteration that meets the element known to be there: control passes it (or has left the loop before)
+                cur = closure([n for s in cur for n in one(s, elt)])
+        for s in cur:
+            left += self.block(st.orelse, dict(s)) if st.orelse else [("next", s, None)]
+        return _dedupe(left)
+
+    def _while(self, st: ast.While, env: dict[str, tuple]) -> list[tuple[str, dict[str, tuple], Any]]:
+        seen: set[tuple] = set()
+        work = [env]
+        out: list[tuple[str, dict[str, tuple], Any]] = []
+        while work:
+            s = dict(work.pop())
+            if _freeze(s) in seen:
+                continue
+            if len(seen) > 300:
+                raise _NotFollowed("a loop whose states do not settle")
+            seen.add(_freeze(s))
+            v, excs = self.evx(st.test, s)
+            out += [("raise", s, x) for x in excs]
+            if v is None:
+                continue
+            t = self.truth(v)
+            if t is not False:
+                for kind, e2, val in self.block(st.body, dict(s)):
+                    if kind in ("next", "continue"):
+                        work.append(e2)
+                    elif kind == "break":
+                        out.append(("next", e2, None))
+                    else:
+                        out.append((kind, e2, val))
+            if t is not True:
+                out += self.block(st.orelse, dict(s)) if st.orelse else [("next", s, None)]
+        return _dedupe(out)
+
+
 def _exit_status(rep: Report, ctx: Any, cfgs: dict[str, CFG]) -> None:
     ix = ctx.py
+    it, _ = ctx.flow
     he = ix.func("cli.handle_errors")
-    # Decided on outcomes, not on the shape of the code: for each combination of (some diagnostic has level ERROR, fail_on_warning)
-    # the statements that can end the function are enumerated; `raise typer.Exit(code=1)` must end it exactly when one of the two holds.
-    from ..astutil import Locals, terminals
-
-    exits = [s for s in ast.walk(he.node) if isinstance(s, ast.Raise) and s.exc is not None and "Exit" in norm(s.exc) and "code=1" in norm(s.exc)]
-    rep.require(exits, "raise typer.Exit(code=1) in handle_errors")
-    lc = Locals(he.node)
-
-    def scans_levels(e: ast.AST) -> bool:
-        """any(<x>.level == ErrorLevel.ERROR for <x> in errors)"""
-        if not (isinstance(e, ast.Call) and call_name(e) == "any" and len(e.args) == 1 and isinstance(e.args[0], (ast.GeneratorExp, ast.ListComp))):
-            return False
-        g_ = e.args[0]
-        return len(g_.generators) == 1 and not g_.generators[0].ifs and norm(g_.generators[0].iter) == "errors" and \
-            norm(g_.elt) == f"{norm(g_.generators[0].target)}.level == ErrorLevel.ERROR"
-
-    has_error: set[str] = {norm(n) for n in ast.walk(he.node) if scans_levels(n)}
-    has_error |= {nm for nm in lc.defs if lc.values_of(nm) and all(scans_levels(v) for v in lc.values_of(nm))}
-    # a level variable: WARNING at the top level, ERROR only under `if <e>.level == ErrorLevel.ERROR` inside `for <e> in errors`
-    for nm in lc.defs:
-        vals = [norm(v) for v in lc.values_of(nm)]
-        if not vals or set(vals) - {"ErrorLevel.WARNING", "ErrorLevel.ERROR"} or "ErrorLevel.ERROR" not in vals:
-            continue
-        ok_l = True
-        for a in [n for n in ast.walk(he.node) if isinstance(n, ast.Assign) and norm(n.targets[0]) == nm]:
-            if norm(a.value) == "ErrorLevel.WARNING":
-                ok_l = ok_l and a in he.node.body
-            else:
-                ok_l = ok_l and any(isinstance(lp, ast.For) and norm(lp.iter) == "errors" and any(
-                    isinstance(i_, ast.If) and norm(i_.test) == f"{norm(lp.target)}.level == ErrorLevel.ERROR" and a in i_.body for i_ in lp.body)
-                    for lp in ast.walk(he.node))
-        if ok_l:
-            has_error |= {f"{nm} == ErrorLevel.ERROR", f"{nm} is ErrorLevel.ERROR"}
-    rep.check(bool(has_error), "R06.5", "cli.handle_errors::level-scan",
-              "nothing in handle_errors is derived from `error.level == ErrorLevel.ERROR` over all errors", where(he, he.node),
-              lhs=sorted(has_error), rhs="any(e.level == ERROR for e in errors) or a level variable raised inside the loop over errors")
-    empty = {"len(errors) == 0", "not errors", "errors == []"}
+    # Decided on outcomes, not on the shape of the code: handle_errors (with the functions it calls) is evaluated abstractly for each
+    # combination of (no diagnostics at all | some diagnostic has level ERROR | none has) x fail_on_warning, see _ExitEval; the ways the
+    # call can end are compared with what the property demands.  Where the scan over the diagnostics is written (loop with a flag or
+    # a level variable, any(), a filtered list, a helper that returns a record, ...) and how the final test is phrased is immaterial.
+    params = [p.arg for p in he.params]
+    rep.require("fail_on_warning" in params and len(params) >= 2, "parameters (diagnostics, fail_on_warning) of handle_errors")
+    diag = next(p for p in params if p != "fail_on_warning")
+    reach = [he]
+    for _ in range(3):
+        reach += [g for q in sorted({w for f in reach for w in it.call_edges.get(f.qual, ())}) if (g := it.func_by_qual.get(q)) is not None and g not in reach]
+    exits = [(g, n) for g in reach for n in ast.walk(g.node)
+             if (isinstance(n, ast.Raise) and n.exc is not None and {"Exit", "SystemExit"} & set(_raised_names(ix, g, n.exc)))
+             or (isinstance(n, ast.Call) and call_name(n) in ("sys.exit", "exit", "quit"))]
+    rep.require(exits, "a statement that ends the process with an exit status (raise typer.Exit / sys.exit) in handle_errors or a function it calls")
+    evl = _ExitEval(ix, diag, "fail_on_warning")
+    res: dict[tuple[bool, bool, bool], set[str]] = {}
+    scans: set[str] = set()
+    try:
+        for empty, h, f_ in ((True, False, False), (True, False, True), (False, False, False), (False, True, False), (False, False, True), (False, True, True)):
+            evl.scans = set()
+            res[(empty, h, f_)] = evl.outcomes(he, empty, h, f_)
+            if not empty and not f_:
+                scans |= evl.scans
+    except _NotFollowed as ex:
+        rep.require(False, f"handle_errors can be evaluated for the way it ends ({ex})")
+    rep.check(bool(scans), "R06.5", "cli.handle_errors::level-scan",
+              "nothing that handle_errors evaluates compares the level of the diagnostics it was given with a member of ErrorLevel", where(he, he.node),
+              lhs=sorted(scans), rhs="`<diagnostic>.level == ErrorLevel.<member>` evaluated for the elements of the diagnostics")
     bad_combo = None
     for h in (False, True):
         for f_ in (False, True):
-            def ev(t: ast.expr, h: bool = h, f_: bool = f_) -> bool | None:
-                txt = norm(t)
-                if txt in has_error:
-                    return h
-                if txt == "fail_on_warning":
-                    return f_
-                if txt in empty:
-                    return False
-                return None
-
-            terms, falls = terminals(he.node.body, ev)
-            hit = [t for t in terms if t in exits]
-            must = h or f_
-            if must and (falls or len(hit) != len(terms)):
-                bad_combo = bad_combo or f"error={h}, fail_on_warning={f_}: the function can end without exit status 1"
-            if not must and hit:
+            outs = res[(False, h, f_)]
+            if (h or f_) and outs != {"exit1"}:
+                bad_combo = bad_combo or (f"error={h}, fail_on_warning={f_}: the function can end without exit status 1 "
+                                          f"({', '.join(sorted(outs - {'exit1'})) or 'it does not end'})")
+            if not (h or f_) and outs & {"exit1", "exit?"}:
                 bad_combo = bad_combo or f"error={h}, fail_on_warning={f_}: exit status 1 although nothing calls for it"
-    rep.check(bad_combo is None and bool(has_error), "R06.5", "cli.handle_errors::exit-guard",
+    last_exit = ([n for g, n in exits if g is he] or [he.node])[-1]
+    rep.check(bad_combo is None, "R06.5", "cli.handle_errors::exit-guard",
               f"typer.Exit(code=1) is not raised exactly when an error-level diagnostic exists or fail_on_warning ({bad_combo})",
-              where(he, exits[-1]), lhs=bad_combo, rhs="exit 1 iff (some error has level ERROR) or fail_on_warning")
+              where(he, last_exit), lhs=bad_combo, rhs="exit 1 iff (some error has level ERROR) or fail_on_warning")
     # with no diagnostics at all the function ends without an exit status
-    terms0, _ = terminals(he.node.body, lambda t: True if norm(t) in empty else None)
-    rep.check(not [t for t in terms0 if t in exits], "R06.5", "cli.handle_errors::early-return",
+    rep.check(not ((res[(True, False, False)] | res[(True, False, True)]) & {"exit1", "exit?"}), "R06.5", "cli.handle_errors::early-return",
               "handle_errors can exit with status 1 although there are no diagnostics", where(he, he.node))
     # cli.generate hands the result of generate() to handle_errors with fail_on_warning
     g = ix.func("cli.generate")
